@@ -6,8 +6,13 @@ Inductive gfun :=
 | F_announcer_handle_findservice      (* self.announcer.handle_findservice(entry, addr, multicast) *)
 | F_announcer_handle_subscribe        (* self.announcer.handle_subscribe(entry, addr) *)
 | F_service_offer_stopped             (* ServiceDiscover.service_offer_stopped(addr, entry) *)
-| F_service_offered.                  (* ServiceDiscover.service_offered(addr, entry) *)
+| F_service_offered                   (* ServiceDiscover.service_offered(addr, entry) *)
+| F_subscribe_stopped                 (* ServiceInstance.eventgroup_subscribe_stopped(addr, subscription) *)
+| F_subscriptions_refresh             (* self.subscriptions.refresh(ttl, addr, subscription, client_subscribed, client_unsubscribed) *)
+| F_send_nack                         (* self.announcer._send_subscribe_nack(subscription, addr) *)
+| F_queue_ack.                        (* self.announcer.queue_send(subscription.to_ack_entry(), remote=addr) *)
 Inductive gact := GCall (f : gfun) | GSoon (f : gfun).
+Definition gprep (g : gact) (p : list gact * bool) : list gact * bool := (cons g (fst p), snd p).
 
 (* what SimpleService.message_received answers: nothing, an error with a return code, the positive response *)
 Require Import Coq.NArith.BinNat.
